@@ -68,6 +68,14 @@ pub fn run(tier: Tier, seed: u64) -> i32 {
         let mut rng = case_rng(seed, "C01", ci);
         let mut cfg = GenCfg::all();
         cfg.heavy = rows >= 500 && ci % 2 == 0;
+        // every other exactly-full domain holds arithmetic rows only: q_arith
+        // is then the constant polynomial 1 and the custom-gate selectors are
+        // zero polynomials (key polynomials of minimal length)
+        let uniform = off == 0 && k % 2 == 0;
+        if uniform {
+            cfg = GenCfg::arith_only();
+            ev.bucket("all_arithmetic_full_domain");
+        }
         let variant = if rows < 6 { 0 } else { (ci + (seed % 6)) % 6 };
         // --- program with the requested PI placement -------------------------
         let b = match variant {
@@ -289,6 +297,7 @@ pub fn run(tier: Tier, seed: u64) -> i32 {
     ev.floor("rayon pool sizes used for proving", ev.set_len("prover_pools") as u64, 12);
     ev.floor("full domains proved on a pool size that does not divide them", ev.bucket_get("full_domain_on_pool_not_dividing_it"), 6);
     ev.floor("circuits whose wire polynomials have vanishing top coefficients", ev.bucket_get("low_degree_wire_columns"), 8);
+    ev.floor("full domains holding arithmetic rows only (constant q_arith)", ev.bucket_get("all_arithmetic_full_domain"), 2);
     ev.floor("gate-free circuits (domain of 4 rows)", ev.bucket_get("tiny_domain.rows4"), 3);
     ev.floor("single-row circuits", ev.bucket_get("tiny_domain.rows5"), 3);
     ev.finish()
